@@ -622,4 +622,21 @@ theorem firstsBy_snoc {α} (key : α → Name) (xs : List α) (x : α) :
       rw [Bool.eq_false_iff]; exact fun hc => h ((repeats_iff key (xs, x)).mp hc)
     simp [h, this]
 
+/-! ### uniqueness, position-wise -/
+
+theorem nodup_iff_no_earlier {α} (key : α → Name) (xs : List α) :
+    (xs.map key).Nodup ↔ ∀ i x, xs[i]? = some x → key x ∉ (xs.take i).map key := by
+  have h := hist_no_repeats key [] xs
+  simp only [List.map_nil, List.not_mem_nil, not_false_eq_true, implies_true, and_true] at h
+  rw [← h, ← withEarlier_eq_hist]
+  constructor
+  · intro hall i x hx
+    have := hall (xs.take i, x) ((mem_withEarlier xs _).mpr ⟨i, hx, rfl⟩)
+    exact (repeats_false_iff key _ _).mp this
+  · intro hall p hp
+    obtain ⟨i, hx, hp1⟩ := (mem_withEarlier xs p).mp hp
+    have := hall i p.2 hx
+    rw [← hp1] at this
+    exact (repeats_false_iff key p.1 p.2).mpr this
+
 end Log4rs.Routing
